@@ -31,6 +31,8 @@ PROBES = {
     "bad": "f > zzz",
     "bad2": "g > #nope",
     "bad3": "f > lam > a",
+    "bad4": "lam > g > a",
+    "p16": ("f(a, b)", "g > a"),
 }
 ENV = {"f": LW.f, "g": LW.g, "h1": LW.h1, "h2": LW.h2, "lam": (lambda z: z)}
 FNS = {"f": LW.f, "g": LW.g, "h1": LW.h1, "h2": LW.h2}
